@@ -38,6 +38,7 @@ from pbt.run import Violation
 
 WATCHED = (z.SERVER_PRESENCE, z.SCHEDULED, z.EVENTS, z.BLACKEDOUT_SERVERS)
 TRAIT_NAMES = ['ta', 'tb', 'tc']
+UNPUBLISHED_TRAIT = 'tx'
 PARTS = ['_default', 'partB', 'partC']
 _TIME = {'s': 1, 'm': 60, 'h': 3600, 'd': 86400}
 
@@ -279,6 +280,9 @@ class MasterSim(object):
         master_mod.Master(boot, 'cell').create_rootns()
         self.trait_bits = {name: 2 << idx
                            for idx, name in enumerate(TRAIT_NAMES)}
+        # a trait nodes detect themselves: never published in /traits, the
+        # master learns it from server records only
+        self.trait_bits[UNPUBLISHED_TRAIT] = 2 << len(TRAIT_NAMES)
         zkutils.put(zk, z.path.traits(), TRAIT_NAMES)
         for part in PARTS[1:case.get('nparts', 1)]:
             zkutils.put(zk, z.path.partition(part), {})
@@ -626,7 +630,8 @@ class MasterSim(object):
             'disk': spell_mb(cap[2] * self.unit, style + 2),
             'up_since': up_since,
             'traits': [TRAIT_NAMES[i] for i in range(3)
-                       if spec['traits'] & (2 << i)],
+                       if spec['traits'] & (2 << i)] +
+                      ([UNPUBLISHED_TRAIT] if spec.get('tx') else []),
         }
 
     def op_srv(self, rack_idx, spec):
